@@ -121,7 +121,8 @@ pub fn execute(id: usize, tree: &Tree, run: &Run) -> Outcome {
     }
     let before = snapshot(&root);
     let mut cmd = Command::new(BIN);
-    cmd.args(&run.argv)
+    let argv: Vec<String> = run.argv.iter().map(|a| a.replace("$ROOT", &root.to_string_lossy())).collect();
+    cmd.args(&argv)
         .current_dir(root.join(&run.cwd))
         .env_clear()
         .env("PATH", "/usr/bin:/bin")
@@ -738,6 +739,815 @@ pub fn c14(thorough: bool, stats: &mut Stats) -> Vec<Failure> {
             if !o.before.contains_key(k) {
                 f.push(("file-created".into(), format!("{} was created", k)));
             }
+        }
+        f
+    })
+}
+
+// ======================================================================================================== C15
+/// the 14 places a configuration can sit; the value is the indent width the file at that place prescribes
+pub const PLACES: &[(&str, usize)] = &[
+    ("p/stylua.toml", 1),
+    ("p/.stylua.toml", 2),
+    ("p/w/stylua.toml", 3),
+    ("p/w/.stylua.toml", 4),
+    ("p/w/s/stylua.toml", 5),
+    ("p/w/s/.stylua.toml", 6),
+    ("p/w/s/d/stylua.toml", 7),
+    ("p/w/s/d/.stylua.toml", 8),
+    ("p/w/.editorconfig", 9),
+    ("p/.editorconfig", 10),
+    ("_xdg/stylua.toml", 11),
+    ("_xdg/stylua/stylua.toml", 12),
+    ("_home/.config/stylua.toml", 13),
+    ("_home/.config/stylua/stylua.toml", 14),
+];
+const PROBE: &str = "do\nx()\nend\n";
+const OVERRIDE_WIDTH: usize = 15;
+
+fn place_content(i: usize) -> String {
+    let (p, n) = PLACES[i];
+    if p.ends_with(".editorconfig") {
+        format!("root = true\n[*.lua]\nindent_style = space\nindent_size = {}\n", n)
+    } else {
+        format!("indent_type = \"Spaces\"\nindent_width = {}\n", n)
+    }
+}
+
+/// reference model: acceptable indent widths (0 = the default, tabs) for a file whose directory is at `level`
+/// (0 = p, 1 = p/w = cwd, 2 = p/w/s, 3 = p/w/s/d); `stdin_plain` = stdin without --stdin-filepath
+fn c15_model(places: &[usize], level: usize, search_parents: bool, no_editorconfig: bool, config_path: Option<usize>, over: bool) -> Vec<usize> {
+    let has = |i: usize| places.contains(&i);
+    let fin = |n: usize| -> usize {
+        if over && n != 0 {
+            OVERRIDE_WIDTH
+        } else {
+            n
+        }
+    };
+    if let Some(cp) = config_path {
+        return vec![fin(PLACES[cp].1)];
+    }
+    // 1. stylua.toml / .stylua.toml walking up from the file's directory, stopping at the working directory
+    let mut lv = level as i32;
+    loop {
+        let a = (lv as usize) * 2;
+        let (x, y) = (has(a), has(a + 1));
+        if x || y {
+            let mut v = vec![];
+            if x {
+                v.push(fin(PLACES[a].1));
+            }
+            if y {
+                // both names in one directory: the documentation does not say which wins
+                v.push(fin(PLACES[a + 1].1));
+            }
+            return v;
+        }
+        let stop_here = lv == 1 && !search_parents;
+        if stop_here || lv == 0 {
+            break;
+        }
+        lv -= 1;
+    }
+    // 2. with --search-parent-directories: XDG / HOME locations
+    if search_parents {
+        for i in 10..14 {
+            if has(i) {
+                return vec![fin(PLACES[i].1)];
+            }
+        }
+    }
+    // 3. .editorconfig (nearest one at or above the file's directory)
+    if !no_editorconfig {
+        if level >= 1 && has(8) {
+            return vec![fin(9)];
+        }
+        if has(9) {
+            return vec![fin(10)];
+        }
+    }
+    vec![0]
+}
+
+fn indent_of(out: &str) -> Option<usize> {
+    // "do\n<indent>x()\nend\n"
+    let l = out.lines().nth(1)?;
+    if l.starts_with('\t') {
+        return Some(0);
+    }
+    Some(l.len() - l.trim_start_matches(' ').len())
+}
+
+pub fn c15(thorough: bool, stats: &mut Stats) -> Vec<Failure> {
+    let n = PLACES.len();
+    let mut subsets: Vec<Vec<usize>> = vec![vec![]];
+    for a in 0..n {
+        subsets.push(vec![a]);
+        for b in (a + 1)..n {
+            subsets.push(vec![a, b]);
+            if thorough {
+                for c in (b + 1)..n {
+                    subsets.push(vec![a, b, c]);
+                }
+            }
+        }
+    }
+    // targets: (description, argv tail, stdin?, list of (file path relative to root, level) whose result is observed)
+    struct Target {
+        name: &'static str,
+        args: Vec<&'static str>,
+        stdin: bool,
+        files: Vec<(&'static str, usize)>,
+        stdin_level: usize,
+    }
+    let targets = vec![
+        Target { name: "f.lua", args: vec!["f.lua"], stdin: false, files: vec![("p/w/f.lua", 1)], stdin_level: 0 },
+        Target { name: "./f.lua", args: vec!["./f.lua"], stdin: false, files: vec![("p/w/f.lua", 1)], stdin_level: 0 },
+        Target { name: "s/f.lua", args: vec!["s/f.lua"], stdin: false, files: vec![("p/w/s/f.lua", 2)], stdin_level: 0 },
+        Target { name: "s/d/f.lua", args: vec!["s/d/f.lua"], stdin: false, files: vec![("p/w/s/d/f.lua", 3)], stdin_level: 0 },
+        Target { name: "s/d/../f.lua", args: vec!["s/d/../f.lua"], stdin: false, files: vec![("p/w/s/f.lua", 2)], stdin_level: 0 },
+        Target { name: "abs:s/f.lua", args: vec!["$ROOT/p/w/s/f.lua"], stdin: false, files: vec![("p/w/s/f.lua", 2)], stdin_level: 0 },
+        Target { name: ".", args: vec!["."], stdin: false, files: vec![("p/w/f.lua", 1), ("p/w/s/f.lua", 2), ("p/w/s/d/f.lua", 3)], stdin_level: 0 },
+        Target { name: "../o.lua", args: vec!["../o.lua"], stdin: false, files: vec![("p/o.lua", 0)], stdin_level: 0 },
+        Target { name: "abs:../o.lua", args: vec!["$ROOT/p/o.lua"], stdin: false, files: vec![("p/o.lua", 0)], stdin_level: 0 },
+        Target { name: "stdin", args: vec!["-"], stdin: true, files: vec![], stdin_level: 1 },
+        Target { name: "stdin@f.lua", args: vec!["--stdin-filepath", "f.lua", "-"], stdin: true, files: vec![], stdin_level: 1 },
+        Target { name: "stdin@s/f.lua", args: vec!["--stdin-filepath", "s/f.lua", "-"], stdin: true, files: vec![], stdin_level: 2 },
+        Target { name: "stdin@s/d/f.lua", args: vec!["--stdin-filepath", "s/d/f.lua", "-"], stdin: true, files: vec![], stdin_level: 3 },
+    ];
+    let mut scs = vec![];
+    // meta is carried in the description; the judge re-derives the expectation from it
+    for sub in &subsets {
+        for (ti, t) in targets.iter().enumerate() {
+            for sp in [false, true] {
+                for noec in [false, true] {
+                    for over in [false, true] {
+                        if !thorough && over && sub.len() > 1 {
+                            continue;
+                        }
+                        let mut cps: Vec<Option<usize>> = vec![None];
+                        if ti == 0 || ti == 9 {
+                            for i in sub.iter().filter(|i| !PLACES[**i].0.ends_with(".editorconfig")) {
+                                cps.push(Some(*i));
+                            }
+                        }
+                        for cp in cps {
+                            let mut tree = Tree::default();
+                            for i in sub {
+                                tree.add(PLACES[*i].0, place_content(*i).as_bytes());
+                            }
+                            for f in ["p/w/f.lua", "p/w/s/f.lua", "p/w/s/d/f.lua", "p/o.lua"] {
+                                tree.add(f, PROBE.as_bytes());
+                            }
+                            tree.add("_home/", b"");
+                            tree.add("_xdg/", b"");
+                            let mut argv: Vec<String> = vec!["--color".into(), "Never".into()];
+                            if sp {
+                                argv.push("--search-parent-directories".into());
+                            }
+                            if noec {
+                                argv.push("--no-editorconfig".into());
+                            }
+                            if over {
+                                argv.push("--indent-width".into());
+                                argv.push(OVERRIDE_WIDTH.to_string());
+                            }
+                            if let Some(c) = cp {
+                                argv.push("--config-path".into());
+                                argv.push(format!("$ROOT/{}", PLACES[c].0));
+                            }
+                            for a in &t.args {
+                                argv.push(a.to_string());
+                            }
+                            let desc = format!(
+                                "C15 places={:?} target={} search_parents={} no_editorconfig={} override={} config_path={:?}",
+                                sub.iter().map(|i| PLACES[*i].0).collect::<Vec<_>>(),
+                                t.name,
+                                sp,
+                                noec,
+                                over,
+                                cp.map(|c| PLACES[c].0)
+                            );
+                            scs.push((
+                                Scenario { desc, tree, run: Run { argv, cwd: "p/w".into(), stdin: if t.stdin { Some(PROBE.as_bytes().to_vec()) } else { None }, ..Run::default() } },
+                                (sub.clone(), ti, sp, noec, over, cp),
+                            ));
+                        }
+                    }
+                }
+            }
+        }
+    }
+    let metas: Vec<(Vec<usize>, usize, bool, bool, bool, Option<usize>)> = scs.iter().map(|x| x.1.clone()).collect();
+    let mut only: Vec<Scenario> = scs.into_iter().map(|x| x.0).collect();
+    // `$ROOT` inside argv is resolved by the executor through the environment substitution below
+    for s in only.iter_mut() {
+        s.run.env.push(("MC_ROOT_MARK".into(), "$ROOT".into()));
+    }
+    let idx: std::collections::HashMap<String, usize> = only.iter().enumerate().map(|(i, s)| (s.desc.clone(), i)).collect();
+    run_all(only, "E2-C15", stats, |s, o| {
+        let mut f = vec![];
+        let (sub, ti, sp, noec, over, cp) = &metas[idx[&s.desc]];
+        let t = &targets[*ti];
+        if o.code != 0 {
+            f.push(("exit-status".into(), format!("exit {}: {}", o.code, String::from_utf8_lossy(&o.stderr).chars().take(200).collect::<String>())));
+            return f;
+        }
+        let judge_one = |what: &str, out: &str, level: usize, f: &mut Vec<(String, String)>| {
+            let acc = c15_model(sub, level, *sp, *noec, *cp, *over);
+            match indent_of(out) {
+                Some(n) if acc.contains(&n) => {}
+                got => f.push(("wrong-configuration".into(), format!("{}: indentation {:?} (0 = tabs), the documented search gives {:?}", what, got, acc))),
+            }
+        };
+        if t.stdin {
+            judge_one("stdout", &String::from_utf8_lossy(&o.stdout), t.stdin_level, &mut f);
+        } else {
+            for (p, level) in &t.files {
+                match o.after.get(*p) {
+                    Some(x) => judge_one(p, &String::from_utf8_lossy(&x.0), *level, &mut f),
+                    None => f.push(("file-missing".into(), format!("{} is gone", p))),
+                }
+            }
+        }
+        f
+    })
+}
+
+/// C15 addendum: per-file sections of one .editorconfig, several files in one invocation (the result for one file must
+/// not leak to another file of the same directory)
+pub fn c15_sections(stats: &mut Stats) -> Vec<Failure> {
+    let ec = "root = true\n[*.lua]\nindent_style = space\n[f.lua]\nindent_size = 2\n[g.lua]\nindent_size = 3\n[s/f.lua]\nindent_size = 5\n[s/g.lua]\nindent_size = 6\n";
+    let files = [("f.lua", 2usize), ("g.lua", 3), ("s/f.lua", 5), ("s/g.lua", 6)];
+    let mut scs = vec![];
+    // every ordered pair / triple of explicit files, and the directory
+    let mut arglists: Vec<Vec<&str>> = vec![vec!["."], vec!["s", "f.lua"], vec!["g.lua", "s"]];
+    for a in 0..4 {
+        for b in 0..4 {
+            if a != b {
+                arglists.push(vec![files[a].0, files[b].0]);
+                for c in 0..4 {
+                    if c != a && c != b {
+                        arglists.push(vec![files[a].0, files[b].0, files[c].0]);
+                    }
+                }
+            }
+        }
+    }
+    for args in arglists {
+        for nt in [1, 4] {
+            let mut t = Tree::default();
+            t.add(".editorconfig", ec.as_bytes());
+            for (p, _) in &files {
+                t.add(p, PROBE.as_bytes());
+            }
+            let mut argv: Vec<String> = vec!["--color".into(), "Never".into(), "--num-threads".into(), nt.to_string()];
+            argv.extend(args.iter().map(|s| s.to_string()));
+            scs.push(Scenario { desc: format!("C15 editorconfig-sections args={:?} threads={}", args, nt), tree: t, run: Run { argv, ..Run::default() } });
+        }
+    }
+    run_all(scs, "E2-C15", stats, |s, o| {
+        let mut f = vec![];
+        if o.code != 0 {
+            f.push(("exit-status".into(), format!("exit {}", o.code)));
+        }
+        let files = [("f.lua", 2usize), ("g.lua", 3), ("s/f.lua", 5), ("s/g.lua", 6)];
+        let args = s.desc.split("args=").nth(1).unwrap();
+        for (p, n) in files {
+            let selected = args.contains(&format!("\"{}\"", p)) || args.contains("\".\"") || (p.starts_with("s/") && args.contains("\"s\""));
+            let got = indent_of(&String::from_utf8_lossy(&o.after[p].0));
+            let want = if selected { Some(n) } else { indent_of(PROBE) };
+            if selected && got != want {
+                f.push(("wrong-configuration".into(), format!("{}: indentation {:?}, its own .editorconfig section says {}", p, got, n)));
+            }
+        }
+        f
+    })
+}
+
+// ======================================================================================================== C16
+pub const C16_FILES: &[&str] = &["a.lua", "b.luau", "c.txt", ".h.lua", "s/d.lua", "s/.g/e.lua", "v/v.lua"];
+pub const C16_ARGS: &[&str] = &[".", "s", "a.lua", "./a.lua", "c.txt", "v/v.lua", "s/d.lua", ".h.lua"];
+/// ignore pattern lists (gitignore syntax); the model below implements exactly these
+pub const C16_IGNORES: &[&str] = &["v/\n", "*.lua\n", "*.lua\n!a.lua\n", "s/d.lua\n", "d.lua\n"];
+const UNF: &str = "local   x  =  1\n";
+
+/// is `file` (path relative to cwd) excluded by the ignore file at `loc` ("" = cwd, "s" = s/) with pattern list `pi`?
+fn c16_ignored(file: &str, loc: &str, pi: usize) -> bool {
+    // the ignore file only governs its own subtree; patterns are relative to its directory
+    let rel = if loc.is_empty() {
+        file.to_string()
+    } else {
+        match file.strip_prefix(&format!("{}/", loc)) {
+            Some(r) => r.to_string(),
+            None => return false,
+        }
+    };
+    let base = rel.rsplit('/').next().unwrap();
+    match pi {
+        0 => rel.starts_with("v/") || rel.contains("/v/"),
+        1 => base.ends_with(".lua"),
+        2 => base.ends_with(".lua") && base != "a.lua",
+        3 => rel == "s/d.lua",
+        _ => base == "d.lua",
+    }
+}
+
+fn c16_glob_match(file: &str, globs: usize, luau: bool) -> bool {
+    let base = file.rsplit('/').next().unwrap();
+    match globs {
+        0 => base.ends_with(".lua") || (luau && base.ends_with(".luau")),
+        1 => base.ends_with(".txt"),
+        _ => base.ends_with(".lua") && base != "d.lua",
+    }
+}
+
+fn c16_hidden_below(file: &str, root: &str) -> bool {
+    // hidden = a component starting with '.' below the traversal root
+    let rel = if root == "." { file } else { file.strip_prefix(&format!("{}/", root)).unwrap_or(file) };
+    rel.split('/').any(|c| c.starts_with('.'))
+}
+
+/// reference model: the set of files that are processed (each exactly once)
+fn c16_model(args: &[&str], ign: Option<(&str, usize)>, globs: usize, respect: bool, allow_hidden: bool) -> std::collections::BTreeSet<String> {
+    let mut set = std::collections::BTreeSet::new();
+    for a in args {
+        let canon = a.strip_prefix("./").unwrap_or(a);
+        if *a == "." || *a == "s" {
+            for f in C16_FILES {
+                let under = *a == "." || f.starts_with("s/");
+                if !under {
+                    continue;
+                }
+                if !c16_glob_match(f, globs, true) {
+                    continue;
+                }
+                if !allow_hidden && c16_hidden_below(f, a) {
+                    continue;
+                }
+                if let Some((loc, pi)) = ign {
+                    if c16_ignored(f, loc, pi) {
+                        continue;
+                    }
+                }
+                set.insert(f.to_string());
+            }
+        } else {
+            // a file named explicitly is formatted regardless, unless --respect-ignores is given
+            if respect {
+                if !c16_glob_match(canon, globs, true) {
+                    continue;
+                }
+                if let Some((loc, pi)) = ign {
+                    if c16_ignored(canon, loc, pi) {
+                        continue;
+                    }
+                }
+            }
+            set.insert(canon.to_string());
+        }
+    }
+    set
+}
+
+pub fn c16(thorough: bool, stats: &mut Stats) -> Vec<Failure> {
+    let mut arglists: Vec<Vec<&str>> = vec![];
+    for a in C16_ARGS {
+        arglists.push(vec![a]);
+        for b in C16_ARGS {
+            arglists.push(vec![a, b]);
+        }
+    }
+    if thorough {
+        for a in C16_ARGS {
+            for b in C16_ARGS {
+                for c in [".", "s", "a.lua", "s/d.lua"] {
+                    arglists.push(vec![a, b, c]);
+                }
+            }
+        }
+    }
+    let mut igns: Vec<Option<(&str, usize)>> = vec![None];
+    for loc in ["", "s"] {
+        for pi in 0..C16_IGNORES.len() {
+            igns.push(Some((loc, pi)));
+        }
+    }
+    let mut metas = vec![];
+    let mut scs = vec![];
+    for args in &arglists {
+        for ign in &igns {
+            for globs in 0..3usize {
+                for respect in [false, true] {
+                    for hidden in [false, true] {
+                        for mode in ["write", "summary"] {
+                            if !thorough && mode == "write" && args.len() > 1 && (globs != 0 || hidden) {
+                                continue;
+                            }
+                            let mut t = Tree::default();
+                            for f in C16_FILES {
+                                t.add(f, UNF.as_bytes());
+                            }
+                            if let Some((loc, pi)) = ign {
+                                let p = if loc.is_empty() { ".styluaignore".to_string() } else { format!("{}/.styluaignore", loc) };
+                                t.add(&p, C16_IGNORES[*pi].as_bytes());
+                            }
+                            let mut argv: Vec<String> = vec!["--color".into(), "Never".into()];
+                            if mode == "summary" {
+                                argv.extend(["--check".into(), "--output-format".into(), "Summary".into()]);
+                            }
+                            match globs {
+                                1 => argv.extend(["-g".into(), "**/*.txt".into()]),
+                                2 => argv.extend(["-g".into(), "**/*.lua".into(), "-g".into(), "!**/d.lua".into()]),
+                                _ => {}
+                            }
+                            if respect {
+                                argv.push("--respect-ignores".into());
+                            }
+                            if hidden {
+                                argv.push("--allow-hidden".into());
+                            }
+                            argv.push("--".into());
+                            argv.extend(args.iter().map(|s| s.to_string()));
+                            let desc = format!("C16 args={:?} styluaignore={:?} globs={} respect_ignores={} allow_hidden={} mode={}", args, ign.map(|(l, p)| (l, C16_IGNORES[p])), globs, respect, hidden, mode);
+                            metas.push((args.clone(), *ign, globs, respect, hidden, mode));
+                            scs.push(Scenario { desc, tree: t, run: Run { argv, ..Run::default() } });
+                        }
+                    }
+                }
+            }
+        }
+    }
+    let idx: std::collections::HashMap<String, usize> = scs.iter().enumerate().map(|(i, s)| (s.desc.clone(), i)).collect();
+    run_all(scs, "E2-C16", stats, |s, o| {
+        let mut f = vec![];
+        let (args, ign, globs, respect, hidden, mode) = &metas[idx[&s.desc]];
+        let want = c16_model(args, *ign, *globs, *respect, *hidden);
+        if *mode == "write" {
+            if o.code != 0 {
+                f.push(("exit-status".into(), format!("exit {}: {}", o.code, String::from_utf8_lossy(&o.stderr).chars().take(160).collect::<String>())));
+            }
+            let changed: std::collections::BTreeSet<String> = C16_FILES.iter().filter(|p| o.after.get(**p).map(|x| &x.0) != o.before.get(**p).map(|x| &x.0)).map(|p| p.to_string()).collect();
+            if changed != want {
+                let extra: Vec<&String> = changed.difference(&want).collect();
+                let missing: Vec<&String> = want.difference(&changed).collect();
+                f.push(("wrong-selection".into(), format!("formatted but not selected: {:?}; selected but not formatted: {:?}", extra, missing)));
+            }
+            for (k, v) in &o.after {
+                if !C16_FILES.contains(&k.as_str()) && o.before.get(k) != Some(v) {
+                    f.push(("other-file-touched".into(), format!("{} changed", k)));
+                }
+            }
+        } else {
+            let listed: Vec<String> = String::from_utf8_lossy(&o.stdout)
+                .lines()
+                .map(|l| l.trim().to_string())
+                .filter(|l| C16_FILES.iter().any(|p| l.ends_with(p)) && !l.contains(' '))
+                .map(|l| l.strip_prefix("./").unwrap_or(&l).to_string())
+                .collect();
+            let mut sorted = listed.clone();
+            sorted.sort();
+            let mut dedup = sorted.clone();
+            dedup.dedup();
+            if dedup.len() != sorted.len() {
+                f.push(("processed-twice".into(), format!("a file is processed more than once: {:?}", sorted)));
+            }
+            let got: std::collections::BTreeSet<String> = dedup.into_iter().collect();
+            if got != want {
+                let extra: Vec<&String> = got.difference(&want).collect();
+                let missing: Vec<&String> = want.difference(&got).collect();
+                f.push(("wrong-selection".into(), format!("processed but not selected: {:?}; selected but not processed: {:?}", extra, missing)));
+            }
+        }
+        f
+    })
+}
+
+// ======================================================================================================== C17
+pub fn c17(thorough: bool, stats: &mut Stats) -> Vec<Failure> {
+    let big = |mib: usize| -> Vec<u8> {
+        let line = "local   x  =  { 1,2 ,3 }\n";
+        line.repeat(mib * 1024 * 1024 / line.len()).into_bytes()
+    };
+    let mut inputs: Vec<(&str, Vec<u8>)> = vec![
+        ("unformatted", b"local   x  =  1\nf( 'a' )\n".to_vec()),
+        ("formatted", b"local x = 1\n".to_vec()),
+        ("invalid", b"local x = = 1\n".to_vec()),
+        ("empty", b"".to_vec()),
+        ("whitespace", b"  \n\n".to_vec()),
+        ("crlf", b"local   x  =  1\r\ndo\r\nx()\r\nend\r\n".to_vec()),
+        ("no-final-newline", b"do\nx()\nend".to_vec()),
+        ("1MiB", big(1)),
+    ];
+    if thorough {
+        inputs.push(("4MiB", big(4)));
+        inputs.push(("16MiB", big(16)));
+    }
+    // (name, extra args, cfg transformer)
+    let opt_sets: Vec<(&str, Vec<&str>)> = vec![
+        ("plain", vec![]),
+        ("verify", vec!["--verify"]),
+        ("opts", vec!["--indent-type", "Spaces", "--indent-width", "3", "--quote-style", "ForceSingle", "--line-endings", "Windows"]),
+        ("range", vec!["--range-start", "0", "--range-end", "16"]),
+        ("check-standard", vec!["--check"]),
+        ("check-unified", vec!["--check", "--output-format", "Unified"]),
+        ("check-json", vec!["--check", "--output-format", "Json"]),
+        ("check-summary", vec!["--check", "--output-format", "Summary"]),
+    ];
+    let filepaths: Vec<(&str, Vec<&str>)> = vec![
+        ("none", vec![]),
+        ("src/x.lua", vec!["--stdin-filepath", "src/x.lua"]),
+        ("ignored.lua", vec!["--stdin-filepath", "ignored.lua"]),
+        ("ignored.lua+respect", vec!["--respect-ignores", "--stdin-filepath", "ignored.lua"]),
+        ("src/x.lua+respect", vec!["--respect-ignores", "--stdin-filepath", "src/x.lua"]),
+    ];
+    let mut scs = vec![];
+    let mut metas = vec![];
+    for (iname, bytes) in &inputs {
+        for (oname, oargs) in &opt_sets {
+            for (fname, fargs) in &filepaths {
+                for with_cfg in [false, true] {
+                    if bytes.len() > 100_000 && (*oname != "plain" || *fname != "none" || with_cfg) {
+                        continue;
+                    }
+                    let mut t = Tree::default();
+                    t.add(".styluaignore", b"ignored.lua\n");
+                    t.add("src/keep.lua", b"local   untouched  =  1\n");
+                    if with_cfg {
+                        t.add("stylua.toml", b"indent_type = \"Spaces\"\nindent_width = 2\n");
+                    }
+                    let mut argv: Vec<String> = vec!["--color".into(), "Never".into()];
+                    argv.extend(oargs.iter().map(|s| s.to_string()));
+                    argv.extend(fargs.iter().map(|s| s.to_string()));
+                    argv.push("-".into());
+                    let desc = format!("C17 input={} options={} stdin_filepath={} stylua.toml={}", iname, oname, fname, with_cfg);
+                    metas.push((iname.to_string(), oname.to_string(), fname.to_string(), with_cfg));
+                    scs.push(Scenario { desc, tree: t, run: Run { argv, stdin: Some(bytes.clone()), ..Run::default() } });
+                }
+            }
+        }
+    }
+    let idx: std::collections::HashMap<String, usize> = scs.iter().enumerate().map(|(i, s)| (s.desc.clone(), i)).collect();
+    run_all(scs, "E2-C17", stats, |s, o| {
+        let mut f = vec![];
+        let (iname, oname, fname, with_cfg) = &metas[idx[&s.desc]];
+        let input = String::from_utf8_lossy(s.run.stdin.as_ref().unwrap()).to_string();
+        if o.before != o.after {
+            f.push(("stdin-wrote-files".into(), "the file system changed in stdin mode".into()));
+        }
+        let mut cfg = Cfg::default();
+        if *with_cfg {
+            cfg.it = 1;
+            cfg.iw = 2;
+        }
+        if oname == "opts" {
+            cfg.it = 1;
+            cfg.iw = 3;
+            cfg.qs = 3;
+            cfg.le = 1;
+        }
+        let range = if oname == "range" { Some((Some(0usize), Some(16usize))) } else { None };
+        let skipped = fname == "ignored.lua+respect";
+        let expected: Option<String> = if skipped {
+            Some(input.clone())
+        } else {
+            match crate::explore::run_format(&input, &cfg, 120, range).0 {
+                crate::explore::Out::Ok(x) => Some(x),
+                _ => None,
+            }
+        };
+        let stdout = String::from_utf8_lossy(&o.stdout).to_string();
+        let check = oname.starts_with("check");
+        match (&expected, check) {
+            (None, _) => {
+                if o.code != 2 {
+                    f.push(("exit-status".into(), format!("exit {} for input that does not parse (expected 2)", o.code)));
+                }
+                // (the summary format frames its report with a header and a footer line: that is not formatted text)
+                if !stdout.is_empty() && oname != "check-summary" {
+                    f.push(("stdout-on-error".into(), format!("{} bytes on stdout although the input does not parse", stdout.len())));
+                }
+            }
+            (Some(exp), false) => {
+                if o.code != 0 {
+                    f.push(("exit-status".into(), format!("exit {} (expected 0): {}", o.code, String::from_utf8_lossy(&o.stderr).chars().take(120).collect::<String>())));
+                }
+                if stdout != *exp {
+                    let at = stdout.bytes().zip(exp.bytes()).position(|(a, b)| a != b).unwrap_or(stdout.len().min(exp.len()));
+                    f.push(("stdout-differs".into(), format!("stdout ({} bytes) is not the library output ({} bytes); first difference at byte {}", stdout.len(), exp.len(), at)));
+                }
+            }
+            (Some(exp), true) => {
+                let differs = *exp != input;
+                let want = if differs { 1 } else { 0 };
+                if o.code != want {
+                    f.push(("exit-status".into(), format!("exit {} in --check mode, input {} its formatted form", o.code, if differs { "differs from" } else { "equals" })));
+                }
+                if oname == "check-unified" && differs {
+                    match apply_unified(&input, &stdout) {
+                        Ok(r) if r == *exp => {}
+                        Ok(_) => f.push(("unified-does-not-reconstruct".into(), "the unified diff of stdin does not reconstruct the formatted text".into())),
+                        Err(e) => f.push(("unified-malformed".into(), e)),
+                    }
+                }
+                if !differs && oname != "check-summary" && !stdout.is_empty() {
+                    f.push(("diff-for-formatted-input".into(), "a diff is printed for formatted input".into()));
+                }
+            }
+        }
+        let _ = iname;
+        f
+    })
+}
+
+// ======================================================================================================== C20
+/// (option, toml key, flag, [(documented value, toml literal, flag value, editorconfig (key, value) if any, cfg mutator)])
+pub fn c20(_thorough: bool, stats: &mut Stats) -> Vec<Failure> {
+    // a probe whose formatting reveals every option
+    let probe = "local t = { a = 'x', b = \"y\" }\nfunction f(a) return a end\nif a then return end\nf'str'\ng{ 1 }\nlocal z = require('z')\nlocal y = require('y')\nlocal s = [[l1\nl2]]\nlocal longname = call(argument_number_one, argument_number_two, argument_number_three) + other(argument)\nlocal u = a // b\n";
+    struct V {
+        opt: &'static str,
+        toml: String,
+        flag: Vec<String>,
+        ec: Option<(&'static str, String)>,
+        cfg: Cfg,
+    }
+    let mut vals: Vec<V> = vec![];
+    let d = Cfg::default();
+    let case_variants = |v: &str| vec![v.to_string(), v.to_lowercase(), v.to_uppercase()];
+    for (i, name) in ["Unix", "Windows"].iter().enumerate() {
+        for fv in case_variants(name) {
+            vals.push(V { opt: "line_endings", toml: format!("line_endings = \"{}\"", name), flag: vec!["--line-endings".into(), fv], ec: Some(("end_of_line", if i == 0 { "lf".into() } else { "crlf".into() })), cfg: Cfg { le: i as u8, ..d } });
+        }
+    }
+    for (i, name) in ["Tabs", "Spaces"].iter().enumerate() {
+        for fv in case_variants(name) {
+            vals.push(V { opt: "indent_type", toml: format!("indent_type = \"{}\"", name), flag: vec!["--indent-type".into(), fv], ec: Some(("indent_style", if i == 0 { "tab".into() } else { "space".into() })), cfg: Cfg { it: i as u8, ..d } });
+        }
+    }
+    for w in [1usize, 2, 3, 8] {
+        vals.push(V { opt: "indent_width", toml: format!("indent_type = \"Spaces\"\nindent_width = {}", w), flag: vec!["--indent-type".into(), "Spaces".into(), "--indent-width".into(), w.to_string()], ec: Some(("indent_style = space\nindent_size", w.to_string())), cfg: Cfg { it: 1, iw: w, ..d } });
+    }
+    for (i, name) in crate::cfg::QS_NAMES.iter().enumerate() {
+        for fv in case_variants(name) {
+            let ec = match i {
+                0 => Some(("quote_type", "double".to_string())),
+                1 => Some(("quote_type", "single".to_string())),
+                _ => None,
+            };
+            vals.push(V { opt: "quote_style", toml: format!("quote_style = \"{}\"", name), flag: vec!["--quote-style".into(), fv], ec, cfg: Cfg { qs: i as u8, ..d } });
+        }
+    }
+    for (i, name) in crate::cfg::CP_NAMES.iter().enumerate() {
+        for fv in case_variants(name) {
+            let ec = if i < 4 { Some(("call_parentheses", name.to_string())) } else { None };
+            vals.push(V { opt: "call_parentheses", toml: format!("call_parentheses = \"{}\"", name), flag: vec!["--call-parentheses".into(), fv], ec, cfg: Cfg { cp: i as u8, ..d } });
+        }
+    }
+    for (i, name) in crate::cfg::CS_NAMES.iter().enumerate() {
+        for fv in case_variants(name) {
+            vals.push(V { opt: "collapse_simple_statement", toml: format!("collapse_simple_statement = \"{}\"", name), flag: vec!["--collapse-simple-statement".into(), fv], ec: Some(("collapse_simple_statement", name.to_string())), cfg: Cfg { cs: i as u8, ..d } });
+        }
+    }
+    for (i, name) in crate::cfg::SAFN_NAMES.iter().enumerate() {
+        for fv in case_variants(name) {
+            vals.push(V { opt: "space_after_function_names", toml: format!("space_after_function_names = \"{}\"", name), flag: vec!["--space-after-function-names".into(), fv], ec: Some(("space_after_function_names", name.to_string())), cfg: Cfg { safn: i as u8, ..d } });
+        }
+    }
+    vals.push(V { opt: "sort_requires", toml: "[sort_requires]\nenabled = true".into(), flag: vec!["--sort-requires".into()], ec: Some(("sort_requires", "true".into())), cfg: Cfg { sort: true, ..d } });
+    vals.push(V { opt: "sort_requires", toml: "[sort_requires]\nenabled = false".into(), flag: vec![], ec: Some(("sort_requires", "false".into())), cfg: d });
+    let widths = [20usize, 40, 80, 120];
+    let mut wvals = vec![];
+    for w in widths {
+        wvals.push((w, V { opt: "column_width", toml: format!("column_width = {}", w), flag: vec!["--column-width".into(), w.to_string()], ec: Some(("max_line_length", w.to_string())), cfg: d }));
+    }
+    for (name, syn) in [("All", crate::cfg::Syn::All), ("Lua51", crate::cfg::Syn::Lua51), ("Lua52", crate::cfg::Syn::Lua52), ("Lua53", crate::cfg::Syn::Lua53), ("Lua54", crate::cfg::Syn::Lua54), ("LuaJIT", crate::cfg::Syn::LuaJIT), ("Luau", crate::cfg::Syn::Luau)] {
+        for fv in case_variants(name) {
+            vals.push(V { opt: "syntax", toml: format!("syntax = \"{}\"", name), flag: vec!["--syntax".into(), fv], ec: None, cfg: d.with_syn(syn) });
+        }
+    }
+    let mut scs = vec![];
+    let mut metas: Vec<(String, usize, Cfg, bool)> = vec![]; // (kind, width, cfg, expect_reject)
+    let mut push = |desc: String, tree: Tree, argv: Vec<String>, cfg: Cfg, w: usize, reject: bool, scs: &mut Vec<Scenario>, metas: &mut Vec<(String, usize, Cfg, bool)>| {
+        metas.push((desc.clone(), w, cfg, reject));
+        scs.push(Scenario { desc, tree, run: Run { argv, ..Run::default() } });
+    };
+    let all: Vec<(usize, &V)> = vals.iter().map(|v| (120usize, v)).chain(wvals.iter().map(|(w, v)| (*w, v))).collect();
+    for (w, v) in &all {
+        // carrier 1: stylua.toml
+        let mut t = Tree::default();
+        t.add("f.lua", probe.as_bytes());
+        t.add("stylua.toml", format!("{}\n", v.toml).as_bytes());
+        push(format!("C20 option={} carrier=stylua.toml value={:?}", v.opt, v.toml), t, vec!["--color".into(), "Never".into(), "f.lua".into()], v.cfg, *w, false, &mut scs, &mut metas);
+        // carrier 2: flag
+        let mut t = Tree::default();
+        t.add("f.lua", probe.as_bytes());
+        let mut argv: Vec<String> = vec!["--color".into(), "Never".into()];
+        argv.extend(v.flag.clone());
+        argv.push("f.lua".into());
+        push(format!("C20 option={} carrier=flag value={:?}", v.opt, v.flag), t, argv, v.cfg, *w, false, &mut scs, &mut metas);
+        // carrier 3: .editorconfig
+        if let Some((k, val)) = &v.ec {
+            for valv in [val.clone(), val.to_uppercase()] {
+                let mut t = Tree::default();
+                t.add("f.lua", probe.as_bytes());
+                t.add(".editorconfig", format!("root = true\n[*.lua]\n{} = {}\n", k, valv).as_bytes());
+                push(format!("C20 option={} carrier=.editorconfig value={:?}", v.opt, format!("{} = {}", k, valv)), t, vec!["--color".into(), "Never".into(), "f.lua".into()], v.cfg, *w, false, &mut scs, &mut metas);
+            }
+        }
+    }
+    // max_line_length = off
+    {
+        let mut t = Tree::default();
+        t.add("f.lua", probe.as_bytes());
+        t.add(".editorconfig", b"root = true\n[*.lua]\nmax_line_length = off\n");
+        push("C20 option=column_width carrier=.editorconfig value=\"max_line_length = off\"".into(), t, vec!["--color".into(), "Never".into(), "f.lua".into()], d, usize::MAX, false, &mut scs, &mut metas);
+    }
+    // malformed configuration files: every key misspelled by one character, values of another type, unknown key / table, duplicate key
+    let good: Vec<(&str, &str)> = vec![
+        ("syntax", "\"Lua51\""),
+        ("column_width", "100"),
+        ("line_endings", "\"Unix\""),
+        ("indent_type", "\"Spaces\""),
+        ("indent_width", "2"),
+        ("quote_style", "\"ForceDouble\""),
+        ("call_parentheses", "\"None\""),
+        ("collapse_simple_statement", "\"Always\""),
+        ("space_after_function_names", "\"Always\""),
+    ];
+    let mut bad: Vec<String> = vec![];
+    for (k, v) in &good {
+        // one character dropped, doubled, replaced at three positions
+        for pos in [0, k.len() / 2, k.len() - 1] {
+            let mut dropped = k.to_string();
+            dropped.remove(pos);
+            bad.push(format!("{} = {}", dropped, v));
+            let mut repl: Vec<char> = k.chars().collect();
+            repl[pos] = 'x';
+            bad.push(format!("{} = {}", repl.iter().collect::<String>(), v));
+        }
+        bad.push(format!("{} = {}", k.to_uppercase(), v));
+        // value of another type
+        let other = if v.starts_with('"') { "5" } else { "\"five\"" };
+        bad.push(format!("{} = {}", k, other));
+        bad.push(format!("{} = true", k));
+        bad.push(format!("{} = [1]", k));
+        if v.starts_with('"') {
+            bad.push(format!("{} = \"NoSuchValue\"", k));
+        } else {
+            bad.push(format!("{} = -1", k));
+            bad.push(format!("{} = 1.5", k));
+        }
+        // duplicate key
+        bad.push(format!("{} = {}\n{} = {}", k, v, k, v));
+    }
+    bad.push("unknown_key = 1".into());
+    bad.push("[unknown_table]\nx = 1".into());
+    bad.push("[sort_requires]\nenable = true".into());
+    bad.push("[sort_requires]\nenabled = \"yes\"".into());
+    bad.push("[sort_requires]\nenabled = true\nextra = 1".into());
+    bad.push("sort_requires = true".into());
+    bad.push("indent_width = ".into());
+    bad.push("= 3".into());
+    for b in bad {
+        for target in ["f.lua", "sub/g.lua", "."] {
+            let mut t = Tree::default();
+            t.add("f.lua", probe.as_bytes());
+            t.add("sub/g.lua", probe.as_bytes());
+            t.add("stylua.toml", format!("{}\n", b).as_bytes());
+            push(format!("C20 malformed stylua.toml {:?} target={}", b, target), t, vec!["--color".into(), "Never".into(), target.into()], d, 120, true, &mut scs, &mut metas);
+        }
+    }
+    let idx: std::collections::HashMap<String, usize> = scs.iter().enumerate().map(|(i, s)| (s.desc.clone(), i)).collect();
+    let probe_s = probe.to_string();
+    run_all(scs, "E2-C20", stats, |s, o| {
+        let mut f = vec![];
+        let (_, w, cfg, reject) = &metas[idx[&s.desc]];
+        if *reject {
+            if o.code != 2 {
+                f.push(("malformed-config-accepted".into(), format!("exit {} for a malformed configuration file (expected 2)", o.code)));
+            }
+            for p in ["f.lua", "sub/g.lua"] {
+                if o.after.get(p).map(|x| &x.0) != o.before.get(p).map(|x| &x.0) {
+                    f.push(("malformed-config-file-modified".into(), format!("{} was modified although the configuration is malformed", p)));
+                }
+            }
+            return f;
+        }
+        // the probe contains `//`, which only some dialects accept: expected = library output and exit 0, or untouched and exit 2
+        let (exp, want_code) = match crate::explore::run_format(&probe_s, cfg, *w, None).0 {
+            crate::explore::Out::Ok(x) => (x, 0),
+            _ => (probe_s.clone(), 2),
+        };
+        if o.code != want_code {
+            f.push(("exit-status".into(), format!("exit {} (expected {}): {}", o.code, want_code, String::from_utf8_lossy(&o.stderr).chars().take(160).collect::<String>())));
+            return f;
+        }
+        let got = String::from_utf8_lossy(&o.after["f.lua"].0).to_string();
+        if got != exp {
+            let at = got.bytes().zip(exp.bytes()).position(|(a, b)| a != b).unwrap_or(got.len().min(exp.len()));
+            f.push(("carrier-differs".into(), format!("file is not the library output for the intended Config (first difference at byte {}: {:?} vs {:?})", at, got.chars().skip(at.saturating_sub(10)).take(40).collect::<String>(), exp.chars().skip(at.saturating_sub(10)).take(40).collect::<String>())));
         }
         f
     })
